@@ -53,6 +53,9 @@ tsk_realloc(void *ptr, size_t size)
     if (should_fail()) {
         return NULL;
     }
+    if (size == 0) {
+        abort(); /* mirrors tsk_bug_assert(size > 0) in the real tsk_realloc */
+    }
     return realloc(ptr, size);
 }
 
